@@ -28,7 +28,7 @@ var _ modifier.Modifier = (*flowModifier)(nil)
 // NewFlowModifier returns a Modifier that corresponds to a cff.Flow call.
 func NewFlowModifier(fset *token.FileSet, f *flow, n ast.Expr, i *types.Info) modifier.Modifier {
 	return &flowModifier{
-		Position: fset.Position(n.Pos()),
+		Position: fset.PositionFor(n.Pos(), false /* adjusted */),
 		Flow:     f,
 		fset:     fset,
 		expr:     n,
